@@ -198,6 +198,10 @@ def run_models(task):
 
             big, plant = bigrun.gen_big(rnd, {"max_vars": gopts.get("max_vars", 18)})
             model, tags = bigrun.restrict(big, plant, rnd, rnd.randint(2, 5)), ["large_constraints_small_search"]
+            if it % 3 == 1:
+                # ... and behind 250-300 instantiated variables: every shared-domain / variable index that matters is > 255
+                model, _ = bigrun.pad_model(model, plant, rnd)
+                tags = tags + ["indices_beyond_8_bits"]
         else:
             model, tags = gen.gen_model(rnd, gopts)
         if O.model_points(model) > max_points:
